@@ -16,7 +16,7 @@ STUBS = ['injector, taps, recording sink']
 ASSUMPTIONS = ['after an idle period the visiting position is not specified: a round restarts at the first class in '
                'declaration order that has a packet (what any loop over the declaration does)',
                'DRR credit is read from the public `deficit` dict at every tap']
-PROBES = ['class_change_under_backlog', 'multi_packet_visit', 'both_backlogged_period', 'drr_exact_reference_matched',
+PROBES = ['compared_with_bare_twin', 'library_port_downstream', 'class_change_under_backlog', 'multi_packet_visit', 'both_backlogged_period', 'drr_exact_reference_matched',
           'deficit_observed', 'kind_DRR', 'kind_RR', 'kind_WRR', 'many_to_one_map', 'packet_larger_than_quantum']
 
 
@@ -50,6 +50,7 @@ def run(case):
         if any(x['cls'] != a['cls'] for x in w):
             nt = True
             break
+    viol += sched.twin_check(r, case, ID, stats)
     res = {'viol': viol, 'digest': digest_of(r.w.log), 'nontrivial': nt, 'stats': stats,
            'simtime': float(r.w.env.now), 'steps': r.w.steps}
     if case.get('_excerpt'):
